@@ -16,6 +16,16 @@ from mako.pygen import adjust_whitespace
 _regexp_cache = {}
 
 
+def _codec_name(encoding):
+    """Return the canonical name of a codec, e.g. "utf-8" for "UTF-8",
+    "utf8" or "utf_8"; an unknown name is returned as given."""
+
+    try:
+        return codecs.lookup(encoding).name
+    except LookupError:
+        return encoding
+
+
 class Lexer:
     def __init__(
         self, text, filename=None, input_encoding=None, preprocessor=None
@@ -199,7 +209,7 @@ class Lexer:
             text = text[len(codecs.BOM_UTF8) :]
             parsed_encoding = "utf-8"
             m = self._coding_re.match(text.decode("utf-8", "ignore"))
-            if m is not None and m.group(1) != "utf-8":
+            if m is not None and _codec_name(m.group(1)) != "utf-8":
                 raise exceptions.CompileException(
                     "Found utf-8 BOM in file, with conflicting "
                     "magic encoding comment of '%s'" % m.group(1),
